@@ -280,20 +280,25 @@ def address_reuse_sweep(chk: Check, n_pairs: int) -> None:
 
     small = [c for c in ctx.contracts if ctx.info[c]["lines"] <= 200]
     gt = [c for c in small if has(c, "gtxns")]
+    # every contract with each of its near-twins (both come up as A and as B over the rounds); the
+    # budget n_pairs only limits the additional random pairs of contracts that use gtxns
     pairs = []
+    seen = set()
     for a in sorted(ctx.twins):
-        if a in small:
-            for t in ctx.twins[a]:
-                if t[0] in "xy":
-                    pairs.append((a, t))  # every index revision of a contract
-            pairs.append((a, rng.choice(ctx.twins[a])))
-    rng.shuffle(pairs)
-    # revisions that differ in a constant group index first (x### twins), then other twins
-    pairs = sorted(pairs, key=lambda ab: 0 if (ab[0][0] in "xy" or ab[1][0] in "xy") and ab[0][0] not in "xy" else 1)
-    pairs = pairs[: (n_pairs * 3) // 4]
-    while len(pairs) < n_pairs and len(gt) >= 2:
+        if a not in small:
+            continue
+        for t in ctx.twins[a]:
+            key = tuple(sorted((a, t)))
+            if key in seen or t not in small:
+                continue
+            seen.add(key)
+            pairs.append((a, t) if a[0] not in "xyw" else (t, a))
+    n_twin_pairs = len(pairs)
+    extra = 0
+    while extra < max(4, n_pairs // 6) and len(gt) >= 2:
         a, b = rng.sample(gt, 2)
         pairs.append((a, b))
+        extra += 1
     specs: List[Dict[str, Any]] = []
     idx = 0
     dets = list(ctx.detectors)
@@ -303,7 +308,7 @@ def address_reuse_sweep(chk: Check, n_pairs: int) -> None:
         if a[0] in "xy" or b[0] in "xy":
             rounds = 16 if chk.tier == "quick" else 48
         else:
-            rounds = 5 if chk.tier == "quick" else 16
+            rounds = 2 if chk.tier == "quick" else 8
         # whether B's objects land on A's old addresses depends on the state of the allocator, so one
         # session goes through many rounds of [A, collect, B, collect]; every B (and A) is compared
         ops: List[Dict[str, Any]] = []
@@ -326,6 +331,7 @@ def address_reuse_sweep(chk: Check, n_pairs: int) -> None:
     log(f"[c14:reuse] sessions={len(specs)} t={time.time()-chk.t0:.0f}s")
     chk.stats["sweep_address_reuse"] = {
         "pairs": len(pairs),
+        "twin_pairs": n_twin_pairs,
         "sessions": len(specs),
         "compared_ops": chk.stats["compared_ops"] - before,
         "wall_s": round(time.time() - t0, 1),
